@@ -120,6 +120,14 @@ def main(argv=None):
     env.setup(args.engine)
     from . import checks_registry as R  # noqa  (imports skglm before forking)
     R.warm(args.check)
+    if args.check == "C09" and args.engine != "twin":
+        # C09 uses one fixed set of kernels: compile them once here, the forked workers inherit
+        # the machine code (on a fresh machine 16 concurrent compilations ate the whole budget)
+        try:
+            execute_one(args.check, args.seed, 0, args.engine, args.tier)
+        except Exception:
+            pass
+        args.t0 = time.time()
     W = max(1, args.workers)
     entries = [int(e) for e in args.entries.split(",") if e != ""]
     all_runs = list(range(args.first, args.first + args.count))
